@@ -224,7 +224,7 @@ def single_defs(fn_node: ast.AST) -> dict[str, ast.expr]:
     return {k: v for k, v in defs.items() if counts.get(k) == 1 and k not in params}
 
 
-def expand(fn_node: ast.AST, e: ast.AST, depth: int = 4) -> ast.AST:
+def expand(fn_node: ast.AST, e: ast.AST, depth: int = 4, pure_only: bool = True) -> ast.AST:
     """`e` with every singly-defined local replaced by its definition (recursively): hoisting an expression into a local, or
     inlining one, does not change what a rule sees. Only side-effect-free definitions are inlined (names, attributes,
     subscripts, constants, arithmetic, f-strings, tuples) - a call result is not duplicated."""
@@ -234,7 +234,7 @@ def expand(fn_node: ast.AST, e: ast.AST, depth: int = 4) -> ast.AST:
         return not any(isinstance(y, (ast.Call, ast.Await, ast.Yield, ast.YieldFrom, ast.NamedExpr, ast.Lambda)) for y in ast.walk(x))
 
     def clone(node, d):
-        if isinstance(node, ast.Name) and isinstance(node.ctx, ast.Load) and node.id in defs and d > 0 and pure(defs[node.id]):
+        if isinstance(node, ast.Name) and isinstance(node.ctx, ast.Load) and node.id in defs and d > 0 and (not pure_only or pure(defs[node.id])):
             return clone(defs[node.id], d - 1)
         if isinstance(node, ast.AST):
             new = type(node)()
@@ -414,7 +414,8 @@ def facts_at(stmt: ast.AST) -> list[tuple[ast.expr, bool]]:
     return out
 
 
-def known_at(stmt: ast.AST, goal_src: str) -> bool:
-    """Some structural fact at `stmt` implies the goal (a python boolean expression over atom texts, given as source)."""
+def known_at(stmt: ast.AST, goal_src: str, fn_node: ast.AST | None = None) -> bool:
+    """Some structural fact at `stmt` implies the goal (a python boolean expression over atom texts, given as source). With
+    fn_node, singly-defined locals in the tests are replaced by their definitions first (`s = self._state`)."""
     goal = ast.parse(goal_src, mode="eval").body
-    return any(edge_implies(t, v, goal) for t, v in facts_at(stmt))
+    return any(edge_implies(expand(fn_node, t) if fn_node is not None else t, v, goal) for t, v in facts_at(stmt))  # type: ignore[arg-type]
